@@ -711,23 +711,32 @@ def _legacy(run, repo, world, folder):
     c = [k for k in world.classes_in(LHAS) if "construct" in k.methods]
     if not c:
         raise AnalysisError("legacy hasseb construct vanished")
-    fn = c[0].methods["construct"][1]
-    packs = [x for x in call_sites(fn) if unparse(x.func) == "struct.pack"]
-    ok = len(packs) == 1
-    if ok:
-        fmt = folder.eval(packs[0].args[0], {}, LHAS)
-        fields = [unparse(a) for a in packs[0].args[1:]]
-        ok = fmt == "BBBBBBBBBB" and fields == [
-            "170", "HASSEB_DALI_FRAME", "self.sn", "frame_length",
-            "expect_reply", "transmitter_settling_time", "send_twice",
-            "byte_a", "byte_b", "0"]
-    tests = {unparse(n.test) for n in ast.walk(fn) if isinstance(n, ast.If)}
-    cmdp = fn.args.args[1].arg
-    run.ob("R-WIRE-LEGACY", c[0].qname + ".construct", ok and
-           astq.canon(fn, packs[0].args[4]) == "16" and
-           {cmdp + ".sendtwice", cmdp + ".is_query"} <= tests,
+    from ..normal import normalise
+    from ..wireval import WireEval, CmdObj, SelfObj, Sym
+    fn = normalise(c[0].methods["construct"][1], world, LHAS, c[0],
+                   aliases=False)
+    ftype = folder.eval(ast.parse("HASSEB_DALI_FRAME", mode="eval").body, {},
+                        LHAS)
+    ok = isinstance(ftype, int)
+    detail = ""
+    for tw in (False, True):
+        for resp in (None, "R"):
+            case = {"nbytes": 2, "nbits": 16, "sendtwice": tw,
+                    "response": resp}
+            r = WireEval(world, folder, c[0], case).run(
+                fn, {"self": SelfObj(c[0]), "command": CmdObj(case)})
+            want = [0xAA, ftype, None, 16, 1 if resp else 0, 0,
+                    10 if tw else 0, Sym("b0"), Sym("b1"), 0]
+            got = list(r[1]) if r[0] == "return" and isinstance(
+                r[1], (list, tuple)) else None
+            if got is None or len(got) != 10 or any(
+                    w is not None and g != w for g, w in zip(got, want)):
+                ok = False
+                detail = "for sendtwice=%s, query=%s the packet is %r" % (
+                    tw, bool(resp), r[1] if r else None)
+    run.ob("R-WIRE-LEGACY", c[0].qname + ".construct", ok,
            "10-byte packet (0xAA, type, sn, 16, expect-reply, settling, "
-           "send-twice delay, two frame bytes, 0) expected",
+           "send-twice delay, two frame bytes, 0) expected; %s" % detail,
            where(mod, fn))
     # UniPi
     mod = repo.mod(UNI)
@@ -771,7 +780,8 @@ def _seq(run, repo, world, folder):
     gens.append((LTRI + ".TridonicDALIUSBDriver._get_sn", repo.mod(LTRI),
                  _steps_method(fn, "self._next_sn"), (1, 1), (1, 255), fn))
     c = [k for k in world.classes_in(LHAS) if "construct" in k.methods][0]
-    fn = c.methods["construct"][1]
+    from ..normal import normalise
+    fn = normalise(c.methods["construct"][1], world, LHAS, c, aliases=False)
     init_sn = None
     for k in world.classes_in(LHAS):
         for name, (kind, f2) in k.methods.items():
